@@ -156,13 +156,92 @@ print("RESULT " + json.dumps(out))
 ''' % VERIF
 
 
+SENSOR_SHAPES = {
+    "TankSensorDevice.value": """@property
+def value(self):
+    values = []
+    for _ in range(10):
+        try:
+            values.append(self.__adc.read(self.__channel))
+            time.sleep(0.05)
+        except OSError:
+            time.sleep(0.5)
+    value = sum(values) / len(values) if values else 0
+    return constrain(mapping(value, self.__low, self.__high, 0, 100), 0, 100)""",
+    "mapping": """def mapping(x, in_min, in_max, out_min, out_max):
+    return (x - in_min) * (out_max - out_min) / (in_max - in_min) + out_min""",
+    "constrain": """def constrain(x, out_min, out_max):
+    return min(max(x, out_min), out_max)""",
+}
+
+
+def _normalised(fn):
+    """ast.unparse without logging statements and docstrings"""
+    import ast
+
+    class Strip(ast.NodeTransformer):
+        def visit_Expr(self, node):
+            if isinstance(node.value, ast.Constant) and isinstance(node.value.value, str):
+                return None
+            if isinstance(node.value, ast.Call) and ast.unparse(node.value.func).startswith("logger."):
+                return None
+            return node
+
+    fn = Strip().visit(fn)
+    ast.fix_missing_locations(fn)
+    return ast.unparse(fn)
+
+
+def sensor_shapes(chk):
+    """the three functions Model/Sensor.lean mirrors have the statement shape the model was written against"""
+    import ast
+
+    found = {}
+    t = ast.parse(open(os.path.join(REPO, "controller", "device.py")).read())
+    for c in ast.walk(t):
+        if isinstance(c, ast.ClassDef) and c.name == "TankSensorDevice":
+            for f in c.body:
+                if isinstance(f, ast.FunctionDef) and f.name == "value":
+                    found["TankSensorDevice.value"] = _normalised(f)
+    t = ast.parse(open(os.path.join(REPO, "controller", "util.py")).read())
+    for f in t.body:
+        if isinstance(f, ast.FunctionDef) and f.name in ("mapping", "constrain"):
+            found[f.name] = _normalised(f)
+    dev = [k for k, v in SENSOR_SHAPES.items() if found.get(k) != v]
+    chk.obligation("shape: TankSensorDevice.value, util.mapping, util.constrain are the statements Model/Sensor.lean mirrors (logging removed)", not dev,
+                   "; ".join(f"{k}: {found.get(k, 'MISSING')[:300]!r}" for k in dev))
+    import configparser
+    cfgp = configparser.ConfigParser()
+    d = os.environ.get("POUPOOL_CONFIG_DIR") or REPO
+    cfgp.read([os.path.join(d, "config.ini"), os.path.join(d, "config.ini.local")])
+    try:
+        low, high = int(cfgp.get("adc", "low")), int(cfgp.get("adc", "high"))
+    except Exception as e:  # noqa: BLE001
+        chk.obligation("config.ini [adc] low/high readable", False, repr(e))
+        return 83, 1665
+    chk.obligation("config.ini [adc] calibration satisfies Sensor.Valid (0 ≤ low < high): the hypothesis of dead_sensor_reads_zero / value_in_range", 0 <= low < high, f"low={low} high={high}")
+    return low, high
+
+
+SENSOR_THEOREMS = ["Poupool.SensorProps." + t for t in ("dead_sensor_reads_zero", "dead_sensor_needs_nonneg_low", "value_in_range", "reading_time", "dead_reading_time", "low_readings_read_low")]
+
+
 def sensor_check(chk):
-    """TankSensorDevice.value: dead ADC -> 0 within 5 s; always within [0, 100]."""
+    """TankSensorDevice.value against Model/Sensor.lean: theorems, shape, exact differential (elapsed time, clamped results;
+    the unclamped fraction within float rounding); dead ADC -> 0 within 5 s; always within [0, 100]."""
+    from fractions import Fraction
+
+    lean.check_theorems(chk, "Poupool.Properties.Sensor", SENSOR_THEOREMS)
+    low, high = sensor_shapes(chk)
     rng = random.Random(chk.seed + 7)
-    cases = [([None] * 10, 83, 1665)]
+    cases = [([None] * 10, low, high), ([None] * 9 + [0], low, high), ([low] * 10, low, high), ([high] * 10, low, high), ([high + 1] + [None] * 9, low, high), ([low - 1] * 10, low, high)]
     for _ in range(300 if chk.tier == "quick" else 3000):
-        seq = [None if rng.random() < rng.choice([0.0, 0.3, 0.9]) else rng.choice([0, 83, 500, 1665, 3000, rng.randint(0, 4095)]) for _ in range(10)]
-        cases.append((seq, 83, 1665))
+        seq = [None if rng.random() < rng.choice([0.0, 0.3, 0.9]) else rng.choice([0, low, 500, high, 3000, rng.randint(0, 4095), rng.randint(max(0, low - 3), low + 3), rng.randint(high - 3, high + 3)]) for _ in range(10)]
+        cases.append((seq, low, high))
+    for _ in range(40 if chk.tier == "quick" else 400):  # other calibrations
+        lo = rng.randint(0, 500)
+        hi = lo + rng.randint(1, 3000)
+        cases.append(([None if rng.random() < 0.3 else rng.randint(0, 4095) for _ in range(10)], lo, hi))
     p = subprocess.run(["/venv/bin/python", "-c", _SENSOR_CODE], input=json.dumps(cases), capture_output=True, text=True, timeout=600, env={**os.environ, "POUPOOL_REPO": REPO})
     res = None
     for line in p.stdout.split("\n"):
@@ -171,62 +250,28 @@ def sensor_check(chk):
     if res is None:
         chk.obligation("harness: real TankSensorDevice on a fake ADC", False, (p.stdout + p.stderr)[-1200:])
         return
-    bad = []
-    for (seq, lo, hi), (v, dur) in zip(cases, res):
+    model = lean.driver("Poupool/Drivers/Sensor.lean", [f"{lo} {hi} " + " ".join("N" if x is None else str(x) for x in seq) for seq, lo, hi in cases])
+    bad, diff = [], []
+    dist = {"all failed": 0, "clamped 0": 0, "clamped 100": 0, "inside": 0}
+    for (seq, lo, hi), (v, dur), m in zip(cases, res, model):
         ok = 0 <= v <= 100 and dur <= 5.0 + 1e-6
         if all(x is None for x in seq):
             ok = ok and v == 0
+            dist["all failed"] += 1
         if not ok:
             bad.append((seq, v, dur))
+        try:
+            num, den, ms = (int(x) for x in m.split())
+        except ValueError:
+            diff.append((seq, lo, hi, v, m))
+            continue
+        exact = Fraction(num, den)
+        clamped = (num, den) in ((0, 1), (100, 1)) or num == 0
+        dist["clamped 0" if exact == 0 else "clamped 100" if (num, den) == (100, 1) else "inside"] += 1
+        same = (Fraction(v) == exact) if clamped else abs(Fraction(v) - exact) <= Fraction(1, 10**9)
+        if not same or abs(dur * 1000 - ms) > 1e-3:
+            diff.append((seq, lo, hi, [v, dur], m))
+    chk.correspondence("TankSensorDevice.value = Sensor.value on fault patterns and calibrations (elapsed time and clamped results exact, the fraction within 1e-9)", len(cases), len(diff), distribution=dist, detail=diff[:3] or None)
     chk.correspondence("TankSensorDevice.value on fault patterns: result in [0,100], dead ADC reads 0, one reading takes ≤ 5 s (R of C04.latency_bound)", len(cases), len(bad), detail=bad[:3] or None)
     for b in bad[:1]:
         chk.violation("tank-sensor-dead-adc", f"TankSensorDevice.value gave {b[1]} after {b[2]} s for ADC pattern {b[0]}", {"kind": "sensor", "pattern": b[0]})
-
-
-def latency_monitor(chk):
-    """C04 on the real composed system: drop the level (or kill the ADC) at generated offsets in every phase in which the
-    tank runs; the halt must be published within 30 s."""
-    from sim import scenario
-
-    rng = random.Random(chk.seed + 11)
-    worst = 0.0
-    n = 0
-    modes = [("eco", 80, "high"), ("eco", 50, "normal"), ("eco", 28, "low"), ("standby", 50, "normal"), ("standby", 80, "high"), ("overflow", 80, "high"), ("comfort", 50, "normal"), ("sweep", 50, "normal")]
-    reps = 2 if chk.tier == "quick" else 12
-    for mode, lvl, leaf in modes:
-        for _ in range(reps):
-            off = rng.choice([0.0, 0.3, 4.9, 5.0, 9.9, 10.0, rng.uniform(0, 20)])
-            dead = rng.random() < 0.6
-            acts = [["tank", lvl], ["mqtt", "/settings/mode", "eco"], ["run", 150]]
-            if mode in ("standby", "overflow", "comfort", "sweep"):
-                acts += [["mqtt", "/settings/mode", "standby" if mode != "overflow" else "overflow"], ["run", 420]]
-                if mode == "comfort":
-                    acts += [["mqtt", "/settings/mode", "comfort"], ["run", 30]]
-                if mode == "sweep":
-                    acts += [["mqtt", "/settings/mode", "sweep"], ["run", 30]]
-            acts += [["run", off]]
-            r = scenario.Runner({"tank_raw": 1000.0, "cover_rate": 25.0}, [])
-            for a in acts:
-                r.do(a)
-            st = r.sys.state("Tank")
-            if st not in ("low", "normal", "high"):
-                r.world.close()
-                continue
-            t0 = r.world.now_us
-            if dead:
-                r.sys.adc.fault = True
-            else:
-                r.sys.set_tank_level(rng.choice([0, 5, 9, 9.5, 9.7, 9.9]))
-            r.run_prompt(60)
-            th = [e[0] for e in r.world.log if e[1] == "publish" and e[2][0] == "/status/filtration/state" and e[2][1] == "halt" and e[0] > t0]
-            lat = (th[0] - t0) / 1e6 if th else None
-            n += 1
-            key_mode = r.sys.state("Filtration")
-            r.world.close()
-            if lat is None or lat > 30.0:
-                chk.violation(f"tank-halt-latency:{st}:{'dead-sensor' if dead else 'too-low'}", f"level {'sensor dead' if dead else 'below too_low'} in tank state {st} (mode {mode}): halt after {lat} s (> 30 s)",
-                              {"kind": "latency", "actions": acts, "dead": dead, "latency": lat})
-            else:
-                worst = max(worst, lat)
-    chk.correspondence("C04 monitor on the real composed system: level drop / dead ADC at generated offsets in every mode -> halt within 30 s", n, 0, distribution={"worst_latency_s": round(worst, 2)})
-    chk.extra["worst_halt_latency_s"] = round(worst, 2)
